@@ -77,7 +77,7 @@ def run(tier, replay):
     info = json.loads(p.stdout.strip().splitlines()[-1])
     ok, why = validate_trace(rep, tp, "record")
     if not ok:
-        keep = os.path.join(vlib.VERIF, "replays", "C07_trace_%d.ndjson" % vlib.seed())
+        keep = os.path.join(vlib.OUT, "replays", "C07_trace_%d.ndjson" % vlib.seed())
         os.makedirs(os.path.dirname(keep), exist_ok=True)
         import shutil
         shutil.copy(tp, keep)
